@@ -816,13 +816,16 @@ func c03GenCfg(rd *verifh.Rand, pf c03Profile) *c03Cfg {
 		return 64 + rd.Intn(8)
 	}
 	// subnet rules
-	switch rd.Intn(3) {
+	switch rd.Intn(4) {
 	case 0:
 		c.sub4 = [][2]int{{32, capv(pf.tightCaps)}}
 	case 1:
 		c.sub4 = [][2]int{{32, capv(pf.tightCaps)}, {24, capv(pf.tightCaps)}}
-	default:
+	case 2:
 		c.sub4 = [][2]int{{24, capv(pf.tightCaps)}}
+	default:
+		// nested: a /24 within a /16 (every v4 host of the address plan is in 10.1.0.0/16)
+		c.sub4 = [][2]int{{24, 1 + rd.Intn(3)}, {16, 1 + rd.Intn(4)}}
 	}
 	if rd.Chance(1, 2) {
 		c.sub6 = [][2]int{{56, capv(pf.tightCaps)}, {48, capv(pf.tightCaps)}}
@@ -1143,10 +1146,83 @@ func (g *c03Gen) peerReturns() {
 	g.r.out.Cover("directed.peer_returns_after_gc")
 }
 
+// endpoints of the address plan: v4 10.1.n.h, v6 fd00:0:0:n00::h (the /56s n = 0..3
+// lie in one /48, the /24s in one /16)
+func c03PlanEp(v6 bool, n, h int) c03Ep {
+	if v6 {
+		return c03Ep{hasIP: true, v6: true, w: [4]uint32{0xfd000000, uint32(n) << 8, 0, uint32(h)}}
+	}
+	return c03Ep{hasIP: true, w: [4]uint32{10<<24 | 1<<16 | uint32(n)<<8 | uint32(h)}}
+}
+
+// directed: nested subnet limits.  The wider subnet (/48, /16) is filled through one
+// narrower subnet, connections from ANOTHER narrower subnet that still has room are
+// attempted (refused by the wider limit: nothing may be counted), then the wider one is
+// emptied and the second subnet must be admitted up to its own cap again.
+func (g *c03Gen) nestedSubnets() {
+	rd, r := g.rd, g.r
+	v6 := rd.Bool()
+	na, nb := rd.Intn(4), rd.Intn(4)
+	if na == nb {
+		nb = (na + 1) % 4
+	}
+	open := func(n, tries int) []int {
+		var got []int
+		for k := 0; k < tries; k++ {
+			i := g.nextConn
+			g.nextConn++
+			if r.do(c03Op{code: 1, i: i, inb: rd.Bool(), fd: false, ep: c03PlanEp(v6, n, 1+rd.Intn(3))}) == 0 {
+				got = append(got, i)
+			}
+		}
+		return got
+	}
+	closeAll := func(l []int) {
+		for _, i := range l {
+			r.do(c03Op{code: 9, t: c03Sid{9, i, 0}})
+			g.doneH[c03Sid{9, i, 0}] = true
+		}
+	}
+	a := open(na, 2+rd.Intn(4))
+	b := open(nb, 1+rd.Intn(3))
+	closeAll(a)
+	b = append(b, open(nb, 2+rd.Intn(3))...)
+	if rd.Chance(1, 2) {
+		closeAll(b)
+		closeAll(open(nb, 2+rd.Intn(3)))
+	}
+	r.out.Cover("directed.nested_subnets")
+}
+
+// final probe of the conn limiter: with everything released every subnet must admit
+// connections again (a refusal is judged by the monitor: only at a cap)
+func (g *c03Gen) probeLimiter() {
+	rd, r := g.rd, g.r
+	for k := 0; k < 3; k++ {
+		v6, n := rd.Bool(), rd.Intn(4)
+		var got []int
+		for j := 0; j < 3; j++ {
+			i := g.nextConn
+			g.nextConn++
+			if r.do(c03Op{code: 1, i: i, inb: true, fd: false, ep: c03PlanEp(v6, n, 1+rd.Intn(3))}) == 0 {
+				got = append(got, i)
+			}
+		}
+		for _, i := range got {
+			r.do(c03Op{code: 9, t: c03Sid{9, i, 0}})
+		}
+	}
+	r.out.Cover("directed.final_limiter_probe")
+}
+
 func (g *c03Gen) step() {
 	rd, r := g.rd, g.r
 	if rd.Chance(1, 25) {
 		g.nestedSpans()
+		return
+	}
+	if rd.Chance(1, 30) {
+		g.nestedSubnets()
 		return
 	}
 	if rd.Chance(1, 30) {
@@ -1306,6 +1382,7 @@ func (g *c03Gen) drain() {
 	if g.pf.gc {
 		r.do(c03Op{code: 10})
 	}
+	g.probeLimiter()
 }
 
 func c03Profiles(rd *verifh.Rand) c03Profile {
@@ -1563,6 +1640,35 @@ func c03Corpus(t testing.TB, out *verifh.Out) {
 			{code: 6, t: c03Sid{9, 1, 0}, sz: 10, prio: 255},
 			{code: 9, t: c03Sid{9, 1, 0}},
 		})
+	}
+	// nested subnet limits: the /48 is filled through one /56; attempts from another /56
+	// that has room are refused by the /48 and must leave nothing behind; after the /48
+	// is emptied the second /56 is admitted up to its own cap, and again after closing
+	{
+		c := c03BaseCfg()
+		c.sub6 = [][2]int{{56, 2}, {48, 2}}
+		c.sub4 = [][2]int{{24, 2}, {16, 2}}
+		var ops []c03Op
+		for _, v6 := range []bool{true, false} {
+			b := len(ops) * 100
+			ops = append(ops,
+				c03Op{code: 1, i: b + 0, inb: true, ep: c03PlanEp(v6, 0, 1)},
+				c03Op{code: 1, i: b + 1, inb: true, ep: c03PlanEp(v6, 0, 2)},
+				c03Op{code: 1, i: b + 2, inb: true, ep: c03PlanEp(v6, 1, 1)}, // refused by the wider limit
+				c03Op{code: 1, i: b + 3, inb: true, ep: c03PlanEp(v6, 1, 2)}, // refused
+				c03Op{code: 1, i: b + 4, inb: true, ep: c03PlanEp(v6, 1, 3)}, // refused
+				c03Op{code: 9, t: c03Sid{9, b + 0, 0}},
+				c03Op{code: 9, t: c03Sid{9, b + 1, 0}},
+				c03Op{code: 1, i: b + 5, inb: true, ep: c03PlanEp(v6, 1, 1)}, // admitted
+				c03Op{code: 1, i: b + 6, inb: true, ep: c03PlanEp(v6, 1, 2)}, // admitted
+				c03Op{code: 1, i: b + 7, inb: true, ep: c03PlanEp(v6, 1, 3)}, // at the cap
+				c03Op{code: 9, t: c03Sid{9, b + 5, 0}},
+				c03Op{code: 9, t: c03Sid{9, b + 6, 0}},
+				c03Op{code: 1, i: b + 8, inb: true, ep: c03PlanEp(v6, 1, 1)}, // admitted again
+				c03Op{code: 9, t: c03Sid{9, b + 8, 0}},
+			)
+		}
+		run("nested-subnet-limits", c, ops)
 	}
 	// a peer is collected by gc while the protocol and service scopes it used survive
 	// through another peer; the same peer then returns on that protocol and service
